@@ -26,6 +26,8 @@ RICH = {
     "unres_z.py": "from gadgetlib_two import Widget\n\n\ndef fz(w: Widget) -> Widget:\n    ...\n",
     "dup1.py": "class Same:\n    pass\n\n\ndef use1(a: list[Same, int], b: set[Same, str]) -> Same:\n    ...\n",
     "dup2.py": "class Same:\n    pass\n\n\ndef use2(a: list[Same, int]) -> Same:\n    ...\n",
+    # one module uses two classes of the same simple name (two import lines for one name)
+    "twosame.py": "from detpk.dup1 import Same as SameA\nfrom detpk.dup2 import Same as SameB\n\n\ndef both(a: SameA, b: SameB) -> SameA:\n    ...\n\n\nclass Child(SameB):\n    pass\n",
     "user.py": '''from __future__ import annotations
 from collections import OrderedDict, Counter
 from decimal import Decimal
